@@ -29,22 +29,28 @@ PROPERTY = "C06"
 LEAN_TARGETS = ["Ipv8.C06.Props"]
 PROPS_FILE = "Ipv8/C06/Props.lean"
 DRIVER = "drv_c06"
-RULE = ("part A: packets enumerated over the bytes the classifier inspects (all 65536 values of bytes 0-1 x length classes "
-        "19/20/23, action words at offsets 0 and 8, first/last byte, every bit of the 22-byte prefix, all lengths 0..64 x "
-        "header templates, sampled larger, random) x all 8 subsets of {RELAY, EXIT_BT, EXIT_IPV8}, outbound and inbound; "
-        "distinct = distinct (packet, direction); non-trivial = allowed under at least one and forbidden under at least one "
-        "flag set. part B: event histories on a real TunnelCommunity; distinct = distinct history; non-trivial = at least one "
-        "emission or tunnelled reply AND at least one dropped packet")
+RULE = ("part A: packets enumerated over the bytes the classifier inspects - all 65536 joint values of bytes 0-1 x length classes "
+        "19/20/23 (exhaustive); structured samples of the action words at offsets 0 and 8 (17x17 chosen words x 8 lengths, 5^4 byte "
+        "patterns per offset), of first/last byte, single-bit flips of the 22-byte prefix, all lengths 0..64 x header templates, "
+        "larger and random packets - x all 8 subsets of {RELAY, EXIT_BT, EXIT_IPV8}, outbound and inbound (16 evaluations per "
+        "packet); distinct = distinct packet; non-trivial = allowed under at least one and forbidden under at least one flag set. "
+        "opening grid: every (hop address, source address of the first cell) pair from the near-miss table, plus nested-DATA cases; "
+        "each pair is one distinct case and counts as non-trivial. part B: event histories on a real TunnelCommunity; distinct = "
+        "distinct history; non-trivial = at least one emission or tunnelled reply AND at least one dropped packet")
 TRUSTED_BASE = [
-    "tools/gen_exitpolicy.py: AST translation of DataChecker.* and TunnelExitSocket.is_allowed (boolean/byte-string subset, lean/Ipv8/C06/Py.lean vocabulary)",
-    "hand-written Lean model of on_data/exit_data/enable/create_transports/sendto/resolve/datagram_received (Ipv8/C06/Model.lean), tied by the correspondence run",
-    "Ipv8/C06/Model.lean `Spec`: the fixed definition of BitTorrent-shaped / IPv8-shaped / allowed, cross-checked against the harness's own Python re-statement on every generated packet",
-    "fake asyncio services in the harness (create_datagram_endpoint, getaddrinfo); the OS socket and the real resolver are not exercised",
+    "tools/gen_exitpolicy.py part 1: AST translation of DataChecker.* and TunnelExitSocket.is_allowed (boolean/byte-string subset, lean/Ipv8/C06/Py.lean vocabulary)",
+    "tools/gen_exitpolicy.py part 2: translation of sendto / datagram_received / exit_data / on_data into decision trees (IR.lean) by canonical expression text, plus its structural checks (flush loop, resolution callback, tunnel_data arguments, who references exit_data / on_data, on_packet_from_circuit dispatching by data[22])",
+    "the meaning Model.lean gives to the IR's atoms and actions, and the hand-written rest of the model (two-stage transport opening and flush, resolve/pickAddr, IPv4-mapped filter), tied by the correspondence run",
+    "Ipv8/C06/Model.lean `Spec`: a transcription of what DataChecker tests today (change detector, not conformance to BEP 29/15), cross-checked against the harness's own Python re-statement on every generated packet",
+    "fake asyncio services in the harness (create_datagram_endpoint, getaddrinfo); the OS socket and the real resolver are not exercised; numeric host literals are answered by the host's getaddrinfo(AI_NUMERICHOST)",
     "DataPayload decoding (serializer) is used as is; it is the subject of C02/C03",
 ]
 ASSUMPTIONS = [
-    "cell decryption / circuit authentication happen before on_data (C04/C05); the model starts at on_data's arguments",
+    "cell decryption / circuit authentication happen before on_data (C04/C05); the model starts at on_data's arguments; on_data takes the circuit id from the decrypted payload and ignores the id of the cell it arrived in (as the code does)",
     "asyncio runs create_transports and resolution callbacks as scheduled; their interleaving with other events is an event order of the model",
+    "the exit-socket table and each socket's hop address are fixed during a history: socket creation (join_circuit), removal/close and address updates of the hop's Peer object are not events of the model",
+    "cell handlers other than on_data that on_packet_from_circuit may re-dispatch to (create, extend, ping, ...) do not reach exit_data (checked syntactically: exit_data is referenced from on_data only) and are otherwise outside C06",
+    "own circuits in the harness always have a hop (circuit.hop is never None)",
 ]
 
 NULL = ("0.0.0.0", 0)
@@ -126,10 +132,11 @@ def make_loop_class():
         async def create_datagram_endpoint(self, factory, local_addr=None, **kw):
             fut = self.create_future()
             fam = 6 if local_addr[0] == "::" else 4
-            gate = {"fam": fam, "fut": fut, "owner": None, "transport": None}
+            proto = factory()
+            owner = getattr(getattr(getattr(proto, "received_cb", None), "__self__", None), "circuit_id", None)
+            gate = {"fam": fam, "fut": fut, "owner": owner, "transport": None}
             self.env.gates.append(gate)
             await fut
-            proto = factory()
             tr = FakeTransport(self.env, fam, proto)
             tr.owner = gate["owner"]
             gate["transport"] = tr
@@ -176,7 +183,18 @@ class Env:
         self.ov = self.node.overlay
         self.pfx = bytes(self.ov.get_prefix())
         self.ov.send_data = lambda target, cid, dest, src, data: self.log.append(("tunnel", cid, target, dest, src, bytes(data)))
-        self.ov.on_packet_from_circuit = lambda src, data, cid: self.log.append(("loc", cid, 0))
+        from ipv8.messaging.anonymization.payload import DataPayload
+        real_opfc = type(self.ov).on_packet_from_circuit
+
+        def opfc(src, data, cid):
+            # a DATA cell nested in the payload is re-dispatched by the REAL on_packet_from_circuit (it leads back into
+            # on_data and from there possibly to exit_data); other cell types are outside C06 and only recorded
+            if data[22:23] == bytes([DataPayload.msg_id]):
+                self.nested_redispatch += 1
+                return real_opfc(self.ov, src, data, cid)
+            self.log.append(("loc", cid, 0))
+        self.nested_redispatch = 0
+        self.ov.on_packet_from_circuit = opfc
         self.ov.on_raw_data = lambda circuit, origin, data: self.log.append(("loc", circuit.circuit_id, 2))
         self._peers = {}
         from ipv8.messaging.anonymization.endpoint import TunnelEndpoint
@@ -259,9 +277,9 @@ def pack_addr(kind: str, host: str, port: int) -> bytes:
     return b"\x02" + struct.pack(">H", len(h)) + h + struct.pack(">H", port)
 
 
-def data_packet(pfx: bytes, cid: int, dest, payload: bytes) -> bytes:
-    """prefix + msg id 1 + DataPayload(circuit_id, dest_address, org_address = 0.0.0.0:0, data) as it arrives at on_data"""
-    return pfx + b"\x01" + struct.pack(">I", cid) + pack_addr(*dest) + pack_addr("4", "0.0.0.0", 0) + payload
+def data_packet(pfx: bytes, cid: int, dest, payload: bytes, origin=("4", "0.0.0.0", 0)) -> bytes:
+    """prefix + msg id 1 + DataPayload(circuit_id, dest_address, org_address, data) as it arrives at on_data"""
+    return pfx + b"\x01" + struct.pack(">I", cid) + pack_addr(*dest) + pack_addr(*origin) + payload
 
 
 def addr_kind(a) -> str:
@@ -390,7 +408,6 @@ async def open_socket_for_gate(env: Env, cid=900):
     for _ in range(2):
         for g in env.gates:
             if not g["fut"].done():
-                g["owner"] = cid
                 g["fut"].set_result(None)
         await env.drain()
     if not (es.transport_ipv4 and es.transport_ipv6):
@@ -640,6 +657,18 @@ def draw_event(rng, env: Env, h, pend_gates, pend_dns, open_fams):
             host = rng.choice(["2001:db8::1", "::ffff:1.2.3.4", "::ffff:0:1", "::1"])
         return {"ev": "outside", "cid": cid, "fam": fam, "host": host, "port": rng.choice([53, 6881, 0]), "data": p.hex()}
     s = rng.choice(socks)
+    if h["circs"] and not burst and rng.random() < 0.12:
+        # a DATA cell on a circuit this node originated whose payload is itself a DATA cell of the tunnel overlay naming
+        # one of the exit sockets; the outer org_address (chosen by the sender) is what the re-dispatch would use as source
+        c = h["circs"][0]
+        inner_payload = payload_pool(rng, env.pfx)[1]
+        inner = data_packet(env.pfx, s["cid"], ("4", "93.184.216.34", 6881), inner_payload,
+                            ("4", rng.choice(["0.0.0.0", "10.1.1.1"]), 0))
+        oip = s["ip"] if rng.random() < 0.7 else rng.choice(FOREIGN_IPS)
+        origin = ("6" if ":" in oip else "4", oip, rng.choice([s["port"], 1234]))
+        return {"ev": "data", "src": [c["ip"], c["port"] if rng.random() < 0.85 else 999], "cid": c["cid"],
+                "dest": list(rng.choice([("4", "0.0.0.0", 0), ("4", "8.8.4.4", 53)])), "origin": list(origin),
+                "data": inner.hex(), "pkind": "nested-data"}
     cid = s["cid"] if rng.random() < 0.9 else rng.choice([3, 555, s["cid"] + 1])
     r = rng.random()
     if r < 0.55:
@@ -705,6 +734,7 @@ async def run_history(ctx: Ctx, env: Env, h, fixed_events=None):
         1 if h.get("tunnel_ep") else 0)]
     impl = ["ok"]
     dns_of = {cid: [] for cid in sockobj}        # cid -> list of dns records in flight (model's `pending`)
+    requested = {cid: set() for cid in sockobj}  # cid -> (data, host, port) that some cell / resolution asked to be sent
     events = []
     stats = {"emit": 0, "tunnel": 0, "dropped": 0}
     n = len(fixed_events) if fixed_events is not None else h["n"]
@@ -729,7 +759,7 @@ async def run_history(ctx: Ctx, env: Env, h, fixed_events=None):
         elif e["ev"] == "data":
             dest = tuple(e["dest"])
             p = bytes.fromhex(e["data"])
-            pkt = data_packet(env.pfx, cid, dest, p)
+            pkt = data_packet(env.pfx, cid, dest, p, tuple(e["origin"]) if e.get("origin") else ("4", "0.0.0.0", 0))
             try:
                 env.ov.on_data((e["src"][0], e["src"][1]), pkt, None)
             except Exception as ex:
@@ -737,6 +767,8 @@ async def run_history(ctx: Ctx, env: Env, h, fixed_events=None):
             line = f"data {hx(e['src'][0].encode())} {e['src'][1]} {cid} {dest[0]} {hx(dest[1].encode())} {dest[2]} {hx(p)}"
             ctx.count("B:dest:" + ("null" if (dest[1], dest[2]) == NULL else {"4": "ipv4", "6": "ipv6", "d": "domain"}[dest[0]]))
             ctx.count("B:payload:" + e.get("pkind", "?"))
+            if cid in requested and dest[0] != "d":
+                requested[cid].add((p, dest[1], dest[2]))
             hop = hopip.get(cid)
             rel = "hop-ip" if e["src"][0] == hop else "no-such-socket" if hop is None else \
                 dict((t, r) for r, t in near_misses(hop)).get(e["src"][0], "foreign:unrelated")
@@ -749,8 +781,11 @@ async def run_history(ctx: Ctx, env: Env, h, fixed_events=None):
         elif e["ev"] == "resolved":
             lst = dns_of.get(cid, [])
             infos = e["infos"]
+            resolved_port = None
             if e["idx"] < len(lst):
                 rec = lst.pop(e["idx"])
+                resolved_port = rec.get("orig_port")
+                e["_rec"] = (rec.get("data"), rec["host"])
                 lit = literal_infos(rec["host"])
                 if lit is not None:
                     infos = lit                      # numeric literals resolve to themselves, as with the real resolver
@@ -761,6 +796,12 @@ async def run_history(ctx: Ctx, env: Env, h, fixed_events=None):
                     rec["fut"].set_result([(socket.AF_INET6 if f == "6" else socket.AF_INET, socket.SOCK_DGRAM, 17, "",
                                             (ip, 0, 0, 0) if f == "6" else (ip, 0)) for f, ip in infos])
             minfos = [] if infos == "fail" else infos
+            if e.get("_rec") and e["_rec"][0] is not None and cid in requested:
+                for _f, ip in minfos:
+                    for prt in range(0, 1):
+                        pass
+                requested[cid] |= {(e["_rec"][0], ip, "anyport") for _f, ip in minfos}
+            e.pop("_rec", None)
             ctx.count("B:resolution:" + ("fail" if infos == "fail" else "empty" if not infos else
                                          "+".join(f for f, _ in infos)))
             line = f"resolved {cid} {e['idx']} [{','.join(f'{f}:{hx(ip.encode())}' for f, ip in minfos)}]"
@@ -781,10 +822,14 @@ async def run_history(ctx: Ctx, env: Env, h, fixed_events=None):
             cur_flags = list(e["flags"])
         # attribute new gates / resolutions to the socket the event was about
         for g in env.gates[n_gates:]:
-            g["owner"] = cid
+            if g["owner"] is None:
+                g["owner"] = cid
         for d in env.dns[n_dns:]:
             d["owner"] = cid
-            dns_of.setdefault(cid, []).append(d)
+            d["data"] = bytes.fromhex(e["data"]) if e["ev"] == "data" else None
+            d["orig_port"] = e["dest"][2] if e["ev"] == "data" else None
+            if cid in sockobj:
+                dns_of.setdefault(cid, []).append(d)
             env.log.append(("resolve", cid, d["host"], d["port"]))
         new = env.log[n_log:]
         # ---- oracle on what the implementation just did ----
@@ -802,18 +847,43 @@ async def run_history(ctx: Ctx, env: Env, h, fixed_events=None):
                     ctx.oracle_fail("TunnelExitSocket.sendto:null-destination",
                                     f"event {i} ({e['ev']}): transport.sendto towards 0.0.0.0:0",
                                     {"part": "B", "history": {**h, "events": events}})
-                if owner is None or not sockobj[owner].enabled:
+                if owner in requested and (data, addr[0], addr[1]) not in requested[owner] \
+                        and (data, addr[0], "anyport") not in requested[owner]:
+                    ctx.oracle_fail("TunnelExitSocket.sendto:emission-to-unrequested-destination",
+                                    f"event {i}: socket {owner} sent {data[:16].hex()} to {addr}, which no cell or resolution asked for",
+                                    {"part": "B", "history": {**h, "events": events}})
+                if owner not in sockobj or not sockobj[owner].enabled:
                     ctx.oracle_fail("TunnelExitSocket.sendto:emission-from-unopened-socket",
                                     f"event {i}: emission from a socket that was never enabled",
                                     {"part": "B", "history": {**h, "events": events}})
             elif ent[0] == "tunnel":
                 stats["tunnel"] += 1
                 data = ent[5]
+                hs = [x for x in h["socks"] if x["cid"] == ent[1]]
+                if e["ev"] != "outside" or ent[1] != cid or not hs or tuple(ent[2]) != (hs[0]["ip"], hs[0]["port"]) \
+                        or tuple(ent[3]) != NULL or tuple(ent[4][:2]) != (e.get("host"), e.get("port")):
+                    ctx.oracle_fail("TunnelExitSocket.tunnel_data:wrong-circuit-or-target",
+                                    f"event {i}: outside datagram for socket {cid} was sent back as send_data{ent[1:5]}",
+                                    {"part": "B", "history": {**h, "events": events}})
                 if not spec_allowed(exit_bt, exit_ipv8, env.pfx, data):
                     ctx.oracle_fail("TunnelExitSocket.datagram_received:forbidden-inbound",
                                     f"event {i}: outside datagram {data[:32].hex()} (BT-shaped={spec_bt(data)}, IPv8-shaped={spec_ipv8(data)}) "
                                     f"was sent back into the tunnel while peer_flags={cur_flags}",
                                     {"part": "B", "history": {**h, "events": events}})
+        if e["ev"] == "data":
+            pl = bytes.fromhex(e["data"])
+            if any(x[0] == "resolve" for x in new) and not spec_allowed(exit_bt, exit_ipv8, env.pfx, pl):
+                ctx.oracle_fail("TunnelExitSocket.sendto:dns-lookup-for-forbidden-packet",
+                                f"event {i}: a DNS lookup for {e['dest'][1]!r} was started for packet {pl[:16].hex()} "
+                                f"(BT-shaped={spec_bt(pl)}, IPv8-shaped={spec_ipv8(pl)}) while peer_flags={cur_flags}",
+                                {"part": "B", "history": {**h, "events": events}})
+            es0 = sockobj.get(cid)
+            if es0 is not None and not enabled_before[cid] and not es0.enabled and \
+                    ([x for x in new if x[0] != "loc"] or len(es0.queue) != qlen_before[cid]):
+                ctx.oracle_fail("TunnelCommunity.exit_data:closed-socket-accepted-data",
+                                f"event {i}: cell from {e['src']} did not open socket {cid} (hop {hopip.get(cid)}) but was queued / "
+                                f"caused {[x[0] for x in new]}",
+                                {"part": "B", "history": {**h, "events": events}})
         opened = [c for c, es in sockobj.items() if es.enabled and not enabled_before[c]]
         opened += [g["owner"] for g in env.gates[n_gates:] if g["fam"] == 4]
         for c in set(opened):
@@ -834,7 +904,8 @@ async def run_history(ctx: Ctx, env: Env, h, fixed_events=None):
             own = any(c["cid"] == cid and [c["ip"], c["port"]] == e["src"] for c in h["circs"])
             p_ok = spec_allowed(exit_bt, exit_ipv8, env.pfx, bytes.fromhex(e["data"]))
             if own:
-                br = "own-circuit:" + ("delivered" if "loc" in kinds else "dropped(no TunnelEndpoint)")
+                br = "own-circuit:" + ("delivered" if "loc" in kinds else "nested-data-cell" if e.get("pkind") == "nested-data"
+                                        else "dropped(no TunnelEndpoint)")
             elif dnull:
                 br = "drop:null-destination"
             elif cid not in sockobj:
@@ -858,8 +929,11 @@ async def run_history(ctx: Ctx, env: Env, h, fixed_events=None):
                 "drop:policy" if not p_ok else "other"
             ctx.count("B:branch:outside:" + br)
         elif e["ev"] == "resolved":
+            first = ([x for x in minfos if x[0] == "4"] or minfos or [None])[0]
             br = "emitted" if "emit" in kinds else "no-address" if not minfos else \
-                "queued" if len(sockobj[cid].queue) > qlen_before.get(cid, 0) else "dropped(policy, null address or full queue)"
+                "queued" if len(sockobj[cid].queue) > qlen_before.get(cid, 0) else \
+                "dropped:null-address-after-resolution" if first and first[1] == "0.0.0.0" and resolved_port == 0 else \
+                "dropped(policy or full queue)"
             ctx.count("B:branch:resolved:" + br)
         elif e["ev"] == "open":
             ctx.count("B:branch:open%d:%s" % (e["fam"], "flush-emitted" if "emit" in kinds else
@@ -934,6 +1008,24 @@ def run_opening_grid(ctx: Ctx, env: Env, use_model: bool):
             all_lines += lines
             all_impl += impl
             owners += [h] * len(lines)
+    # nested DATA cells arriving on an own circuit, naming the exit socket, with the socket's hop address as org_address
+    for hop in HOP_IPS[:3]:
+        for oip in (hop, FOREIGN_IPS[0]):
+            for e2e in (False, True):
+                h = {"flags": [env.F_RELAY, env.F_BT], "socks": [{"cid": 77, "ip": hop, "port": 5000}],
+                     "circs": [{"cid": 555, "ip": "192.0.2.55", "port": 4000, "e2e": e2e}], "tunnel_ep": False, "style": "grid",
+                     "n": 4, "events": []}
+                inner = data_packet(env.pfx, 77, ("4", "93.184.216.34", 6881), payload)
+                evs = [{"ev": "data", "src": ["192.0.2.55", 4000], "cid": 555, "dest": ["4", "0.0.0.0", 0],
+                        "origin": ["6" if ":" in oip else "4", oip, 5000], "data": inner.hex(), "pkind": "nested-data"},
+                       {"ev": "open", "cid": 77, "fam": 4}, {"ev": "open", "cid": 77, "fam": 6}]
+                lines, impl, stats = env.loop.run_until_complete(run_history(ctx, env, h, fixed_events=evs))
+                ctx.count("G:nested-data-on-own-circuit:" + ("origin=socket-hop" if oip == hop else "origin=foreign")
+                          + (":e2e" if e2e else ""))
+                ctx.case(("G", "nested", hop, oip, e2e), nontrivial=True, n=len(lines) - 1)
+                all_lines += lines
+                all_impl += impl
+                owners += [h] * len(lines)
     if use_model:
         replies = ctx.driver().batch(all_lines)
         bad = set()
